@@ -190,4 +190,137 @@ theorem routinesOf_bodies (ls : Labels) (coros : List (Option String)) (rs : Lis
           simp only [List.map_cons, List.cons.injEq, true_and]
           exact ih (rid + 1) is' rest (by simpa using hl) hrest
 
+/-! ### routine ids (`_enlarge_routine_info` after the repair: `0 <= id <= len(routine_infos)`) -/
+
+/-- an id outside `0 … len(routine_infos)` is rejected with `SsbCompilerError` (`def N`, `def N for …`) -/
+theorem enlarge_rejects {ι : Type} (r : RState ι) (h : r.active < 0 ∨ r.active > (r.infos.length : Int)) :
+    enlarge r = .error .ssbCompilerError := by
+  unfold enlarge
+  rw [if_pos h]
+
+/-- when the check passes: the id names an existing routine (nothing is added) or the next one (one slot is added) -/
+theorem enlarge_ok_cases {ι : Type} (r r' : RState ι) (h : enlarge r = .ok r') :
+    r'.active = r.active ∧
+    ((0 ≤ r.active ∧ r.active < (r.infos.length : Int) ∧ r'.infos = r.infos) ∨
+     (r.active = (r.infos.length : Int) ∧ r'.infos = r.infos ++ [none])) := by
+  unfold enlarge at h
+  split at h
+  · cases h
+  · rename_i h0
+    split at h
+    · rename_i h1
+      cases h
+      have ha : r.active = (r.infos.length : Int) := by omega
+      refine ⟨rfl, .inr ⟨ha, ?_⟩⟩
+      have : (r.active - (r.infos.length : Int) + 1).toNat = 1 := by omega
+      simp [this]
+    · rename_i h1
+      cases h
+      exact ⟨rfl, .inl ⟨by omega, by omega, rfl⟩⟩
+
+theorem assign_infos {ι : Type} (r r' : RState ι) (info : RoutineInfo) (items : List ι)
+    (h : assign r info items = .ok r') : pySet r.infos r.active (some info) = .ok r'.infos := by
+  unfold assign at h
+  cases h1 : pySet r.infos r.active (some info) with
+  | error e => rw [h1] at h; cases h
+  | ok infos =>
+    rw [h1] at h
+    cases h2 : pySet r.ops r.active items with
+    | error e => rw [h2] at h; cases h
+    | ok ops => rw [h2] at h; cases h; rfl
+
+/-- every slot that exists after `enlarge` and is still `None` is the one the following assignment fills -/
+theorem enlarge_assign_allSome {ι : Type} (r r1 r' : RState ι) (info : RoutineInfo) (items : List ι) (cs : List (Option String))
+    (hs : ∀ x ∈ r.infos, x.isSome = true) (he : enlarge r = .ok r1)
+    (ha : assign { r1 with coros := cs } info items = .ok r') : ∀ x ∈ r'.infos, x.isSome = true := by
+  obtain ⟨hact, hc⟩ := enlarge_ok_cases r r1 he
+  have hp := assign_infos _ _ _ _ ha
+  simp only at hp
+  rcases hc with ⟨_, _, hi⟩ | ⟨hl, hi⟩
+  · rw [hi] at hp
+    intro x hx
+    rcases pySet_mem _ _ _ _ hp x hx with h | h
+    · exact hs x h
+    · rw [h]; rfl
+  · rw [hi, hact, hl, pySet_append_end] at hp
+    have hp' : r.infos ++ [some info] = r'.infos := by injection hp
+    intro x hx
+    rw [← hp'] at hx
+    rcases List.mem_append.1 hx with h | h
+    · exact hs x h
+    · simp at h; rw [h]; rfl
+
+theorem exitDef_allSome {ι : Type} (r r' : RState ι) (hd : SHeader) (items : List ι)
+    (hs : ∀ x ∈ r.infos, x.isSome = true) (h : exitDef r hd items = .ok r') : ∀ x ∈ r'.infos, x.isSome = true := by
+  cases hd with
+  | simple id =>
+    simp only [exitDef] at h
+    cases he : enlarge { r with active := id } with
+    | error e => rw [he] at h; cases h
+    | ok r1 =>
+      rw [he] at h
+      exact enlarge_assign_allSome { r with active := id } r1 r' _ items r1.coros hs he h
+  | coro name =>
+    simp only [exitDef] at h
+    cases he : enlarge { r with active := r.active + 1 } with
+    | error e => rw [he] at h; cases h
+    | ok r1 =>
+      rw [he] at h
+      simp only at h
+      split at h
+      · cases h
+      · rename_i cs _
+        exact enlarge_assign_allSome { r with active := r.active + 1 } r1 r' _ items cs hs he h
+  | forTarget id word target =>
+    simp only [exitDef] at h
+    cases he : enlarge { r with active := id } with
+    | error e => rw [he] at h; cases h
+    | ok r1 =>
+      rw [he] at h
+      simp only at h
+      split at h
+      · cases h
+      · exact enlarge_assign_allSome { r with active := id } r1 r' _ items r1.coros hs he h
+
+theorem goG_allSome {σ ι : Type} (run : σ → List SStmt → σ × List ι) (ast : List SRoutine) :
+    ∀ (l l' : σ) (r r' : RState ι), (∀ x ∈ r.infos, x.isSome = true) → goG run l r ast = .ok (l', r') →
+    ∀ x ∈ r'.infos, x.isSome = true := by
+  induction ast with
+  | nil => intro l l' r r' hs h; simp only [goG] at h; cases h; exact hs
+  | cons rt rest ih =>
+    intro l l' r r' hs h
+    simp only [goG] at h
+    split at h
+    · cases h
+    · rename_i r1 hx
+      exact ih _ l' r1 r' (exitDef_allSome _ _ _ _ hs hx) h
+
+theorem allSome_isSome {α : Type} (l : List (Option α)) (h : ∀ x ∈ l, x.isSome = true) : ∃ l', allSome l = some l' := by
+  induction l with
+  | nil => exact ⟨[], rfl⟩
+  | cons a l ih =>
+    cases a with
+    | none => have := h none List.mem_cons_self; cases this
+    | some a =>
+      obtain ⟨l', hl⟩ := ih (fun x hx => h x (List.mem_cons_of_mem _ hx))
+      exact ⟨a :: l', by simp [allSome, hl]⟩
+
+/-- with the id check no routine slot stays unassigned: whatever the compiler returns is a routine set -/
+theorem compileRaw_toSet (ast : List SRoutine) (o : CompileOut) (h : compileRaw ast = .ok o) : ∃ y, o.toSet = .ok y := by
+  unfold compileRaw at h
+  cases hg : goG runStmts LState.init RState.init ast with
+  | error e => rw [hg] at h; cases h
+  | ok p =>
+    obtain ⟨l, r⟩ := p
+    rw [hg] at h
+    simp only at h
+    have hs := goG_allSome runStmts ast LState.init l RState.init r (by intro x hx; cases hx) hg
+    cases hm : mapE (removeItems l.labelOffsets) r.ops with
+    | error e => rw [hm] at h; cases h
+    | ok ops =>
+      rw [hm] at h
+      cases h
+      obtain ⟨infos, hi⟩ := allSome_isSome r.infos hs
+      exact ⟨⟨infos, ops, r.coros⟩, by simp [CompileOut.toSet, hi]⟩
+
 end ESV.SsbScript
